@@ -8,12 +8,12 @@ LEAN_TARGETS = ["TypedpyModel.Props.C16", "TypedpyModel.Audit.C16"]
 AUDIT = "C16"
 THEOREMS = [
     "Typedpy.C16.stub_names_agree", "Typedpy.C16.stub_names_are_nonconstant_fields",
-    "Typedpy.C16.stub_required_iff", "Typedpy.C16.stub_required_agree_partial", "Typedpy.C16.stub_required_disagree",
+    "Typedpy.C16.stub_required_agree", "Typedpy.C16.stub_default_iff",
     "Typedpy.C16.stub_kw_iff", "Typedpy.C16.stub_kw_agree_partial", "Typedpy.C16.stub_kw_disagree",
     "Typedpy.C16.helper_fields_agree", "Typedpy.C16.stub_params_agree_partial",
     "Typedpy.C16.stub_params_agree_default_on", "Typedpy.C16.stub_mandatory_first",
     "Typedpy.C16.stub_perm_invariant", "Typedpy.C16.stub_set_invariant", "Typedpy.C16.stub_imports_sorted",
-    "Typedpy.C16.required_optional_counterexample", "Typedpy.C16.inherited_addl_counterexample",
+    "Typedpy.C16.required_optional_fixed_example", "Typedpy.C16.inherited_addl_counterexample",
     "Typedpy.C16.C16_statement_false", "Typedpy.C16.stub_params_agree_example",
 ]
 RULE = ("generated modules: 2-7 Structure classes (annotation and assignment style; inheritance from 1-2 earlier "
@@ -94,12 +94,7 @@ def judge(case, impl, model):
         msgs.append(f"extra imports: model renders {model.get('imports')} real {ex}")
     if "syntax_err" in impl:
         se = impl["syntax_err"]
-        nested = any(S.has_nested_opt(f["ty"]) for it in specs.values() for f in it["fields"] if f.get("const") is None)
-        if nested and "= None" in se["line"].rstrip(",").rsplit("]", 1)[0]:
-            key = "unparsable-stub:nested-optional-default"
-        else:
-            key = "unparsable-stub:other"
-        fails.append((key, f"generated .pyi does not parse: {se['msg']} at `{se['line']}`"))
+        fails.append(("unparsable-stub:other", f"generated .pyi does not parse: {se['msg']} at `{se['line']}`"))
         return _m(msgs), fails
     if "compile_err" in impl:
         ce = impl["compile_err"]
@@ -181,17 +176,12 @@ def judge(case, impl, model):
                 if n not in rt_names:
                     continue
                 if d == (n in rt_required):
-                    f = ff.get(n, {})
-                    if d and f.get("o") and not f.get("c"):
-                        fails.append(("required-optional-default",
-                                      f"{name}.{n}: required AnyOf[X, None] field rendered with `= None` in the stub __init__"))
-                    else:
-                        fails.append(("default-mismatch:init",
-                                      f"{name}.{n}: stub default present={d}, runtime required={n in rt_required}"))
+                    shape = " (AnyOf[X, None] shape)" if ff.get(n, {}).get("o") else ""
+                    fails.append(("default-mismatch:init",
+                                  f"{name}.{n}{shape}: stub default present={d}, runtime required={n in rt_required}"))
             if b and b.get("base_ok"):
                 stub_need = sorted(n for n, d in init["pos"] if not d and n in b["given"])
-                excused = {n for n in b["needed"] if ff.get(n, {}).get("o")}
-                if sorted(set(stub_need) | excused) != sorted(set(b["needed"])) or not set(stub_need) <= set(b["needed"]):
+                if stub_need != b["needed"]:
                     fails.append(("default-mismatch:behaviour",
                                   f"{name}: stub parameters without default {stub_need}, constructor insists on {b['needed']}"))
             seen_default = False
